@@ -1560,11 +1560,14 @@ pub fn generate(seed: u64, run: u64, prop: &str) -> Generated {
             let shift = if is_int { format!("{}", (2.0 - lo) as i64) } else { format!("{:?}", 2.25 - lo.floor()) };
             let top = hi - lo + 3.25;
             let other = numeric.iter().find(|(q2, c2)| *q2 != q && range_of(c2).map_or(false, |r| r.0.abs().max(r.1.abs()) <= 1.0e6));
-            let positive = numeric.iter().find(|(q2, c2)| *q2 != q && range_of(c2).map_or(false, |r| r.0 > 0.0 && r.1 <= 1.0e6));
-            let (expr, scale, name) = match rme.below(16) {
+            // (a denominator whose declared range excludes zero, on either side)
+            let positive = numeric.iter().find(|(q2, c2)| *q2 != q && range_of(c2).map_or(false, |r| (r.0 > 0.0 || r.1 < 0.0) && r.0.abs().max(r.1.abs()) <= 1.0e6));
+            let (expr, scale, name) = match rme.below(18) {
+                16 => (format!("sin({})", q), 1.0, "sin"),
+                17 => (format!("cos({})", q), 1.0, "cos"),
                 14 | 15 => match positive {
                     // a ratio of two columns; the denominator's declared range excludes zero
-                    Some((q2, c2)) => (format!("{} / {}", q, q2), m / range_of(c2).unwrap().0.min(1.0), if c2.optional { "ratio_nullable_den" } else { "ratio" }),
+                    Some((q2, c2)) => (format!("{} / {}", q, q2), m / { let r = range_of(c2).unwrap(); r.0.abs().min(r.1.abs()).min(1.0).max(1e-9) }, if c2.optional { "ratio_nullable_den" } else { "ratio" }),
                     None => continue,
                 },
                 0 if lo >= 0.0 => (format!("sqrt({})", q), m.sqrt(), "sqrt"),
